@@ -66,6 +66,25 @@ class Item:
         return "I%r#%r%s" % (self.key, self.uid, "" if self.truth else "f")
 
 
+class AwaitableItem:
+    """
+    An *item* that happens to be awaitable (a future to pass on, a job handle): data like any other item, equal
+    only to itself.  Nobody is asked to await it; whoever does gets a marker and is seen by the loop.
+    """
+
+    __slots__ = ("uid", "__weakref__")
+
+    def __init__(self, uid):
+        self.uid = uid
+
+    def __await__(self):
+        yield ("item-awaited-by-the-library", self.uid)
+        return ("awaited-item", self.uid)
+
+    def __repr__(self):
+        return "AW#%r" % (self.uid,)
+
+
 class Unorderable:
     """An item that makes comparisons raise TypeError, like mixing str and int"""
 
@@ -97,6 +116,8 @@ def ident(x):
         return ("exc", t.__name__, getattr(x, "tag", None))
     if t is DataAwaitable:
         return ("data_awaitable", x.name)
+    if t is AwaitableItem:
+        return ("awaitable_item", x.uid)
     return ("o", t.__name__)
 
 
